@@ -424,3 +424,187 @@ func RuleNL1(c *Ctx) {
 	})
 	_ = token.NoPos
 }
+
+// ---------------------------------------------------------------- PP1
+
+// RulePP1: what a PASTE brings does not depend on where the PASTE stands. The functions
+// that expand a PASTE (everything the paste pass reaches in package core, the context
+// resolver apart - placing directives is its business) decide nothing by the Parent of a
+// directive they were handed: the macro's body, its rules and its declarations are the same
+// below a method as at the top level, exactly as if the body had been written there. A
+// condition on `paste.Parent` makes a part of the expansion (the ENUM rules, say) happen
+// only for some positions.
+func RulePP1(c *Ctx) {
+	sc := c.Run.Begin("PP1", "in the functions the paste pass reaches (the context resolver apart) no branch condition reads the Parent of a directive received as a parameter", 5)
+	defer sc.End()
+	pk := c.P.Pkg("core")
+	root := c.Func("core", "JApiCore.processPaste")
+	parent := c.Field("directive", "Directive", "Parent")
+	dirT := c.Named("directive", "Directive")
+	if pk == nil || root == nil || parent == nil || dirT == nil {
+		sc.Undecided("anchors", "-", "unresolved anchor: core.JApiCore.processPaste / directive.Directive.Parent")
+		return
+	}
+	skip := map[*types.Func]bool{}
+	if resolver, _ := c.resolverFunc(); resolver != nil {
+		for f := range c.familyOf(resolver) {
+			skip[f] = true
+		}
+		for _, f := range reachStatic(c.P, pk, []*types.Func{resolver}) {
+			skip[f] = true
+		}
+	}
+	info := pk.TypesInfo
+	for _, f := range reachStatic(c.P, pk, []*types.Func{root}) {
+		fd := c.P.Decl(f)
+		if fd == nil || skip[f] || c.P.PkgOfDecl(fd) != pk {
+			continue
+		}
+		params := map[types.Object]bool{}
+		for _, fl := range fd.Type.Params.List {
+			for _, nm := range fl.Names {
+				if o := info.ObjectOf(nm); o != nil {
+					if pt, ok := o.Type().(*types.Pointer); ok && types.Identical(pt.Elem(), dirT) {
+						params[o] = true
+					}
+				}
+			}
+		}
+		n := 0
+		judge := func(cond ast.Expr, at ast.Node) {
+			if cond == nil {
+				return
+			}
+			n++
+			key := fmt.Sprintf("%s:cond#%d", c.P.DeclName(fd), n)
+			bad := ""
+			ast.Inspect(cond, func(y ast.Node) bool {
+				if sel, ok := y.(*ast.SelectorExpr); ok && info.ObjectOf(sel.Sel) == types.Object(parent) {
+					if params[cfgx.RootObj(info, sel.X)] {
+						bad = types.ExprString(sel)
+					}
+				}
+				return true
+			})
+			if bad == "" {
+				sc.Holds(key, c.P.Pos(at.Pos()), "")
+			} else {
+				sc.Violation(key, c.P.Pos(at.Pos()), "the expansion branches on "+bad+", the place where the PASTE stands: a part of what the macro brings (its rules, its declarations) is produced for some positions only, so a PASTE below a method differs from the macro's body written there")
+			}
+		}
+		ast.Inspect(fd.Body, func(x ast.Node) bool {
+			switch s := x.(type) {
+			case *ast.IfStmt:
+				judge(s.Cond, s)
+			case *ast.SwitchStmt:
+				judge(s.Tag, s)
+				for _, cl := range s.Body.List {
+					for _, e := range cl.(*ast.CaseClause).List {
+						if s.Tag == nil {
+							judge(e, cl)
+						}
+					}
+				}
+			case *ast.ForStmt:
+				judge(s.Cond, s)
+			}
+			return true
+		})
+	}
+}
+
+// ---------------------------------------------------------------- KW1
+
+// RuleKW1: the look-ahead that ends a free text knows every keyword. The scanner ends a
+// Description text at the first line that starts with a directive keyword, asking one
+// function of package directive. That function either walks the keyword table itself (a loop
+// over the table or over its length) or names every constant of the enumeration - a kind
+// that has a recogniser of its own (Is<Kind>) apart. A hand-written list that leaves one
+// keyword out makes a line starting with it part of the text: the directive is never
+// created, silently.
+func RuleKW1(c *Ctx) {
+	sc := c.Run.Begin("KW1", "the keyword look-ahead (directive.IsStartWithDirective) walks the keyword table or mentions every constant of the enumeration", 1)
+	defer sc.End()
+	pk := c.P.Pkg("directive")
+	look := c.Func("directive", "IsStartWithDirective")
+	enumT := c.Named("directive", "Enumeration")
+	strM := c.Func("directive", "Enumeration.String")
+	if pk == nil || look == nil || enumT == nil || strM == nil {
+		sc.Undecided("anchors", "-", "unresolved anchor: directive.IsStartWithDirective / Enumeration")
+		return
+	}
+	info := pk.TypesInfo
+	// the table: the package-level variable Enumeration.String indexes
+	var table types.Object
+	if sd := c.P.Decl(strM); sd != nil {
+		ast.Inspect(sd.Body, func(x ast.Node) bool {
+			if ix, ok := x.(*ast.IndexExpr); ok {
+				if id, ok := ast.Unparen(ix.X).(*ast.Ident); ok {
+					if v, ok := info.ObjectOf(id).(*types.Var); ok && v.Parent() == pk.Types.Scope() {
+						table = v
+					}
+				}
+			}
+			return true
+		})
+	}
+	walks := false
+	mentioned := map[string]bool{}
+	recognisers := map[string]bool{}
+	for _, f := range reachStatic(c.P, pk, []*types.Func{look}) {
+		fd := c.P.Decl(f)
+		if fd == nil || f == strM {
+			continue
+		}
+		if strings.HasPrefix(f.Name(), "Is") && f != look {
+			recognisers[strings.TrimPrefix(f.Name(), "Is")] = true
+		}
+		ast.Inspect(fd.Body, func(x ast.Node) bool {
+			switch s := x.(type) {
+			case *ast.RangeStmt:
+				if id, ok := ast.Unparen(s.X).(*ast.Ident); ok && table != nil && info.ObjectOf(id) == table {
+					walks = true
+				}
+			case *ast.ForStmt:
+				if s.Cond != nil {
+					ast.Inspect(s.Cond, func(y ast.Node) bool {
+						if lo, isLen := lengthExprNode(info, y); isLen {
+							if id, ok := ast.Unparen(lo).(*ast.Ident); ok && table != nil && info.ObjectOf(id) == table {
+								walks = true
+							}
+						}
+						return true
+					})
+				}
+			case *ast.Ident:
+				if cst, ok := info.ObjectOf(s).(*types.Const); ok && types.Identical(cst.Type(), enumT) {
+					mentioned[cst.Name()] = true
+				}
+			}
+			return true
+		})
+	}
+	if walks {
+		sc.Holds("table", c.P.Pos(c.P.Decl(look).Pos()), "the look-ahead walks the keyword table")
+		return
+	}
+	var missing []string
+	for _, k := range EnumConsts(pk, enumT) {
+		if !mentioned[k.Name()] && !recognisers[k.Name()] {
+			missing = append(missing, k.Name())
+		}
+	}
+	if len(missing) == 0 {
+		sc.Holds("table", c.P.Pos(c.P.Decl(look).Pos()), "every constant of the enumeration is named")
+	} else {
+		sc.Violation("table", c.P.Pos(c.P.Decl(look).Pos()), "the look-ahead neither walks the keyword table nor names "+strings.Join(missing, ", ")+": a line that starts with that keyword does not end a Description text, so the directive is swallowed into the text and never created")
+	}
+}
+
+func lengthExprNode(info *types.Info, n ast.Node) (ast.Expr, bool) {
+	e, ok := n.(ast.Expr)
+	if !ok {
+		return nil, false
+	}
+	return lengthExpr(info, e)
+}
